@@ -20,6 +20,7 @@ from unittest import mock
 import numpy as np
 
 from common import q, lst, natlit, zlit, blit, optlit, VERIF
+from rung_util import documented_max_t, gen_max_t_variant
 
 IMPORTS = "From Verif Require Import model.Base model.Promotion proofs.PromotionProofs.\nFrom Coq Require Import Qabs.\nOpen Scope Q_scope.\n"
 
@@ -234,7 +235,10 @@ def gen_spec(rng, force_type=None):
         # on an unrepaired tree)
         if rng.random() < 0.5:
             spec["brackets"] = 1
-    spec["mra"] = rng.random() < 0.5
+    # how the maximum resource reaches the constructor (b-rung's helper): explicit max_t, config_space[max_resource_attr]
+    # under a default or non-default key name, or a default-named constant; with distractor constants
+    spec["maxt"] = gen_max_t_variant(rng, spec["max_t"])
+    spec["mra"] = spec["maxt"]["max_resource_attr"] is not None
     spec["cost_attr"] = typ == "cost_promotion" or rng.random() < 0.25
     spec["nthr"] = rng.randint(0, 3) if typ == "rush_promotion" else 0
     spec["checkpointing"] = rng.random() < 0.5
@@ -595,11 +599,19 @@ def run_spec(spec, strict=False, max_trials=None):
         kwargs["rung_levels"] = list(spec["rung_levels"])
     else:
         kwargs.update(grace_period=spec["grace"], reduction_factor=spec["rf"])
-    if spec["mra"]:
-        cs["epochs"] = max_t
-        kwargs["max_resource_attr"] = "epochs"
-    else:
-        kwargs["max_t"] = max_t
+    variant = spec.get("maxt")
+    if variant is None:  # older specs (corpus, replays): max_resource_attr "epochs" or explicit max_t
+        variant = (dict(max_t_arg=None, max_resource_attr="epochs", space_consts={"epochs": max_t}) if spec["mra"]
+                   else dict(max_t_arg=max_t, max_resource_attr=None, space_consts={}))
+    mra_key = variant["max_resource_attr"]
+    cs.update(variant["space_consts"])
+    if variant["max_t_arg"] is not None:
+        kwargs["max_t"] = variant["max_t_arg"]
+    if mra_key is not None:
+        kwargs["max_resource_attr"] = mra_key
+    # the reference maximum NEVER comes from scheduler.max_t: documented rule (max_t argument, else
+    # config_space[max_resource_attr], else epochs / max_t / max_epochs)
+    assert documented_max_t(variant["max_t_arg"], mra_key, variant["space_consts"]) == max_t, variant
     if spec["cost_attr"]:
         kwargs["cost_attr"] = "cost"
     if spec.get("searcher_data", "rungs") != "rungs":
@@ -614,12 +626,20 @@ def run_spec(spec, strict=False, max_trials=None):
             sch = hb.HyperbandScheduler(cs, **kwargs)
         except AssertionError:
             return None  # e.g. PASHA with an empty rung system: not constructible
-    nb = sch.num_brackets
-    dist = OneHot(nb)
+    # reference rung levels, promotion quantiles and number of brackets from the documented rules
+    # (levels grace * rf^k < max_t or the given list, a final max_t stripped; q_j = r_j / r_{j+1}; at most
+    # one bracket per rung level plus one) -- not read off the scheduler
+    if spec["rung_levels"] is not None:
+        levels = [int(l) for l in spec["rung_levels"] if l < max_t]
+    else:
+        levels, cur = [], spec["grace"]
+        while cur < max_t:
+            levels.append(int(cur))
+            cur *= spec["rf"]
+    rungs = [(l, l / nxt) for l, nxt in zip(levels, levels[1:] + [max_t])]
+    nb = min(spec["brackets"], len(levels) + 1)
+    dist = OneHot(max(nb, sch.num_brackets))
     sch.bracket_distribution = dist
-    infos = sch.terminator.information_for_rungs()
-    rungs = sorted((int(l), float(pq)) for (l, _, pq) in infos)
-    levels = [l for l, _ in rungs]
     chk = Checker(spec, levels, max_t, nb)
     cfg_term = "(mkC %s %s %s %s %s %s %s %s %s (1 # 1000000000000) %s)" % (
         VARIANT[spec["type"]], "Min" if spec["mode"] == "min" else "Max", zlit(max_t),
@@ -757,7 +777,7 @@ def run_spec(spec, strict=False, max_trials=None):
                 record("Suggest %s %s [] false" % (zlit(next_id), natlit(br)), "ObsNone",
                        dict(op="suggest", new_id=next_id, bracket=br, result="none"))
                 continue
-            mra_val = sug.config.get("epochs") if (sug.config is not None and spec["mra"]) else None
+            mra_val = sug.config.get(mra_key) if (sug.config is not None and spec["mra"]) else None
             if sug.spawn_new_trial_id:
                 if strict and max_trials is not None and next_id >= max_trials:
                     return "invalid"
